@@ -175,7 +175,7 @@ class Caption:
     for its display.
     """
 
-    def __init__(self, start, end, nodes, style={}, layout_info=None):
+    def __init__(self, start, end, nodes, style=None, layout_info=None):
         """
         Initialize the Caption object
         :param start: The start time in microseconds
@@ -203,7 +203,9 @@ class Caption:
         self.start = start
         self.end = end
         self.nodes = nodes
-        self.style = style
+        # a new dict per instance: a shared default would make an edit of one
+        # caption's style visible in every caption created without a style
+        self.style = {} if style is None else style
         self.layout_info = layout_info
 
     def is_empty(self):
